@@ -4,6 +4,8 @@
 \*   LF = FALSE (as-is: lifecycle started after the registration)  INVS = LookupGone NoDev
 \*   LF = TRUE  (lifecycle started first)                          INVS = LookupExact LookupGoneOrDev
 \*   as-is generally: INVS = LookupExact LookupGone NoDev LookupPure
+\*   REGFIRST = TRUE (record written before the exists-check), MAXDUP >= 1:  INVS = LookupExactOrDev LookupGoneOrDev
+\*   as-is with MAXDUP >= 1 also: PROPS = RefusedOpenInert (a refused open changes nothing)
 \*   SKIP = TRUE (no record when the target is on the source node) / EVICT = TRUE (evicting lookups):
 \*                                                                 INVS = LookupExactOrDev LookupGoneOrDev
 CONSTANTS
@@ -20,10 +22,13 @@ CONSTANTS
   EvictingLookup = @@EVICT@@
   HonourContext = @@HCTX@@
   RejectSeenIds = @@REJSEEN@@
+  RegisterBeforeExistsCheck = @@REGFIRST@@
+  MaxDup = @@MAXDUP@@
   Emit = FALSE
   Only = "all"
 INIT Init
 NEXT Next
 VIEW view
 INVARIANTS TypeOK @@INVS@@
+PROPERTIES @@PROPS@@
 CHECK_DEADLOCK FALSE
